@@ -2,9 +2,10 @@
    list, prod, sumbool, sumor -> the OCaml types); numbers stay the extracted inductives.
    No Extract Constant / Extract Inductive of our own. *)
 From Coq Require Import Extraction ExtrOcamlBasic.
-From KP Require Import Bytes Utf8 Nav.
+From KP Require Import Bytes Utf8 Nav Tree History.
 Extraction Language OCaml.
 Set Extraction KeepSingleton.
 Extraction "model.ml"
   BinInt.Z.add BinNat.N.add Nat.add
-  Nav.iter Nav.get Nav.get_mut Nav.entries Nav.groups Nav.uuid_of.
+  Nav.iter Nav.get Nav.get_mut Nav.entries Nav.groups Nav.uuid_of
+  History.update_history History.apply_hop History.run_hops.
